@@ -12,5 +12,9 @@ def run(c):
     c.guard("blocks", st.get("blocks", 0))
     c.guard("rich_builds", st.get("rich_builds", 0))
     c.guard("rebuilds", st.get("rebuilds", 0))
-    c.guard("rich_builds_after_1000_events", st.get("rich_builds_after_1000_events", 0))
-    return lc.finish(c, res, "speculative builds (random parents) and wrong-frame Process calls injected before 80% of the events; all later verdicts, frames and blocks validated; clean twin compared", extra=None)
+    # more runs of the scenario in which a validator sleeps through 1000+ events (see harness/lach/cmd.go, sleepGen)
+    sl = lc.run_profile(c, "xsleep", c.pick(3, 12), "no-trace")
+    c.guard("rich_builds_after_1000_events", st.get("rich_builds_after_1000_events", 0) + sl["stats"].get("rich_builds_after_1000_events", 0))
+    res["validation"]["scenarios"] += sl["validation"]["scenarios"]
+    res["validation"]["validated_lines"] += sl["validation"]["validated_lines"]
+    return lc.finish(c, res, "speculative builds (random parents) and wrong-frame Process calls injected before 80% of the events; all later verdicts, frames and blocks validated; clean twin compared", extra=dict(sleeper_runs=sl["stats"]))
